@@ -40,7 +40,25 @@ PROPS = {
     },
 }
 
-HOOK_COMMITS = []
+HOOK_COMMITS = ["c5d3f11"]
+
+PROPS["C06"] = {
+    "engine": "kani", "module": "c06", "feature": "c06", "jobs": 12,
+    "functions": ["BitVec::{new,with_value,with_capacity,capacity,from_raw_parts,into_raw_parts,push,pop,resize,get,set,"
+                  "iter,iter_ones,iter_zeros,to_owned,len}", "Extend", "FromIterator", "bit_vec! forms", "BitCount::{count_ones,count_zeros}",
+                  "PartialEq", "Index", "BitIterator", "OnesIterator", "ZerosIterator", "From conversions Vec<->Box<->atomic, &[usize]",
+                  "AtomicBitVec::{new,with_value,from_raw_parts,get,set,swap,count_ones,iter}", "AtomicBitIterator"],
+    "bounds": "3 fully symbolic backing words, len symbolic 0..=192 (every stale-tail state inside); one operation per harness; "
+              "iter: first 4 items (all items for len <= 8); iter_ones/iter_zeros: first 3 items plus calls after None; "
+              "resize grows <= 4 bits per step; count_ones: relational harness (C10) plus residual family len%64 concrete "
+              "(quick: 8 of 64 residuals rotated by VERIF_SEED; thorough: all 64)",
+    "outside": "longer iteration prefixes; more than 3 words; fill/flip/reset are decided under C10",
+    "assumptions": ["from_raw_parts pre-states satisfy the documented contract len <= bits of the backend"],
+    "level_text": "Bounded model checking of the real BitVec code, one inductive step per operation from an arbitrary valid "
+                  "from_raw_parts pre-state (three symbolic words, symbolic length, hence every stale tail), against a bit-level "
+                  "reference; iterators are specified by the select specification (bit set, prefix count equals rank).",
+    "level_note": "Bounds: <= 3 words, iterator prefixes; trusted: Kani/CBMC/CaDiCaL, usize::count_ones as the only primitive of the oracle.",
+}
 
 PROPS["C05"].update({
     "level_text": "Bounded model checking of the real BitFieldVec code: one inductive step per operation from an arbitrary "
@@ -63,7 +81,6 @@ NOT_APPLICABLE = {
     "C02": "check not built yet in this revision (planned, partial: DESIGN.md §2 C02)",
     "C03": "check not built yet in this revision (planned: DESIGN.md §2 C03)",
     "C04": "check not built yet in this revision (planned: DESIGN.md §2 C04)",
-    "C06": "check not built yet in this revision (planned: DESIGN.md §2 C06)",
     "C07": "VBuilder::try_build_func needs threads (std::thread::scope, crossbeam, rayon), per-key xxh3 hashing and loops proportional to n: no bounded symbolic encoding of 'terminates and maps every key' is within reach of Kani/CBMC or a hand translator; the decidable part (edges in range, same at build and query time) is C16",
     "C08": "no-false-negatives is C07 for a hashed value (same builder, same obstacle); 'false-positive frequency close to 2^-b' is a statistical statement about a hash, not an assertion an SMT solver can decide",
     "C09": "check not built yet in this revision (planned, partial: DESIGN.md §2 C09)",
